@@ -487,6 +487,16 @@ def history_lines(rng, tier):
         cs = [rng.choice(rng.choice(pool)) for _ in range(ln)]
         hist.append(cs)
     hist.append(list(gl))
+    # one representative of EVERY class of every generator (rare branches such as the degenerate
+    # projective triple or an all-zero batch would otherwise be drawn only now and then)
+    strat = []
+    for cs in pool[:-2]:
+        seen = {}
+        for c in cs:
+            seen.setdefault(c[1], c)
+        strat += list(seen.values())
+    rng.shuffle(strat)
+    hist.append(strat)
     return hist
 
 
